@@ -128,7 +128,8 @@ func (e *EmptyDataProvider) Get(key string) any {
 }
 
 func (e *EmptyDataProvider) GetByField(field reflect.StructField, fallback string) (any, string) {
-	return nil, fallback
+	// same key as every other provider without a source tag: the zog tag, else the schema key
+	return nil, GetKeyFromField(field, fallback, nil)
 }
 
 func (e *EmptyDataProvider) GetNestedProvider(key string) DataProvider {
